@@ -97,6 +97,11 @@ func (c *Ctx) enumeratePanicSites(fn *ssa.Function) []panicSite {
 				if _, isMap := x.X.Type().Underlying().(*types.Map); !isMap {
 					add(x, "index", "string index")
 				}
+			case *ssa.MakeSlice:
+				// make([]T, n[, m]) panics for a negative (or absurdly large) run-time size
+				if !allConst(x.Len, x.Cap) {
+					add(x, "makeslice", "make with a run-time size")
+				}
 			case *ssa.TypeAssert:
 				if !x.CommaOk {
 					add(x, "assert", "single-value type assertion to "+core.TypeNameOf(x.AssertedType))
@@ -298,7 +303,7 @@ func c13(c *Ctx) {
 	d := newDischarger(c)
 	for _, s := range sites {
 		counts[s.kind]++
-		rule := map[string]string{"panic": "R13.1", "qp-entry": "R13.1", "must": "R13.2", "slice": "R13.3", "index": "R13.3", "div": "R13.3", "depcall": "R13.4", "assert": "R13.5"}[s.kind]
+		rule := map[string]string{"panic": "R13.1", "qp-entry": "R13.1", "must": "R13.2", "slice": "R13.3", "index": "R13.3", "div": "R13.3", "makeslice": "R13.3", "depcall": "R13.4", "assert": "R13.5"}[s.kind]
 		key := c.siteKey(s)
 		pos := c.P.Pos(s.ins.Pos())
 		ok, how := d.discharge(s)
@@ -311,11 +316,11 @@ func c13(c *Ctx) {
 	for k, v := range counts {
 		r.Analysed["sites_"+k] = v
 	}
-	r.Floor("R13.1", counts["panic"], 5)
-	r.Floor("R13.2", counts["must"], 20)
-	r.Floor("R13.3", counts["slice"]+counts["index"], 18)
+	r.Floor("R13.1", counts["panic"], 2)
+	r.Floor("R13.2", counts["must"], 12)
+	r.Floor("R13.3", counts["slice"]+counts["index"], 12)
 	r.Floor("R13.4", counts["depcall"], 3)
-	r.Floor("R13.5", counts["assert"], 5)
+	r.Floor("R13.5", counts["assert"], 3)
 	d.dependencyAssertions()
 	c.checkBoundedWork()
 	c.checkNilResults()
@@ -344,6 +349,10 @@ type discharger struct {
 	c         *Ctx
 	protected map[*ssa.Function]bool
 	validator map[*ssa.Function]map[string]bool // validator fn -> set of field names established on nil return (param 0)
+	// name transformer made by a factory function (closure capturing the pad): set while its pad chain is checked
+	trFactory    *ssa.Function
+	trFactoryIdx int
+	paramBind    map[*ssa.Parameter]ssa.Value
 }
 
 func newDischarger(c *Ctx) *discharger {
@@ -533,6 +542,8 @@ func (d *discharger) discharge(s panicSite) (bool, string) {
 		return d.dischargeBitfield(s)
 	case "assert":
 		return d.dischargeAssert(s)
+	case "makeslice":
+		return d.dischargeMakeSlice(s)
 	case "div":
 		return false, "no rule discharges integer division"
 	}
@@ -822,12 +833,42 @@ func (d *discharger) concreteOfCall(call *ssa.Call, idx int, depth int) (map[str
 	if f := cc.StaticCallee(); f != nil {
 		// qp.BuildMap(proto, …) / qp.BuildList(proto, …): result is proto.NewBuilder().Build()
 		if f.Pkg != nil && f.Pkg.Pkg.Path() == qpPath && (f.Name() == "BuildMap" || f.Name() == "BuildList") && idx == 0 {
-			if mi, ok := cc.Args[0].(*ssa.MakeInterface); ok {
+			pv := cc.Args[0]
+			// the prototype handed through a helper's parameter: use the argument of the call being summarised
+			for i := 0; i < 3; i++ {
+				p, isParam := pv.(*ssa.Parameter)
+				if !isParam {
+					break
+				}
+				b, bound := d.paramBind[p]
+				if !bound {
+					break
+				}
+				pv = b
+			}
+			if mi, ok := pv.(*ssa.MakeInterface); ok {
 				return d.buildTypeOfPrototype(mi.X.Type(), depth)
 			}
 			return nil, false
 		}
-		return d.concreteResult(f, idx, depth+1)
+		// summarise the callee for this call site: its parameters denote the arguments given here
+		if d.paramBind == nil {
+			d.paramBind = map[*ssa.Parameter]ssa.Value{}
+		}
+		var bound []*ssa.Parameter
+		for i, p := range f.Params {
+			if i < len(cc.Args) {
+				if _, had := d.paramBind[p]; !had {
+					d.paramBind[p] = cc.Args[i]
+					bound = append(bound, p)
+				}
+			}
+		}
+		ts, ok := d.concreteResult(f, idx, depth+1)
+		for _, p := range bound {
+			delete(d.paramBind, p)
+		}
+		return ts, ok
 	}
 	if cc.IsInvoke() && cc.Method.Name() == "Build" {
 		// nb.Build() with nb = P.NewBuilder()
@@ -934,4 +975,91 @@ func (d *discharger) linkPreconditionMust(fn *ssa.Function, root ssa.Value, fiel
 
 func isIPLDPath(p string) bool {
 	return strings.HasPrefix(p, "github.com/ipld/go-ipld-prime") || strings.HasPrefix(p, "github.com/ipld/go-codec-dagpb")
+}
+
+// dischargeMakeSlice: every run-time size of make([]T, n, m) is a non-negative, input-bounded quantity: len()/cap() of a
+// value, a constant, a sum of such, or a value dominated by both a lower-bound test (>= 0 / > c) and an upper-bound test
+// against a constant.
+func (d *discharger) dischargeMakeSlice(s panicSite) (bool, string) {
+	ms := s.ins.(*ssa.MakeSlice)
+	var sizeOK func(v ssa.Value, depth int) (bool, string)
+	sizeOK = func(v ssa.Value, depth int) (bool, string) {
+		if depth > 6 {
+			return false, "size expression too deep"
+		}
+		v = core.Unconv(v)
+		if k, ok := core.ConstInt(v); ok {
+			if k >= 0 {
+				return true, ""
+			}
+			return false, "negative constant size"
+		}
+		if _, isLen := lenOf(v); isLen {
+			return true, ""
+		}
+		if call, ok := v.(*ssa.Call); ok {
+			if b, isB := call.Call.Value.(*ssa.Builtin); isB && (b.Name() == "cap" || b.Name() == "len" || b.Name() == "min") {
+				return true, ""
+			}
+		}
+		if bo, ok := v.(*ssa.BinOp); ok && (bo.Op == token.ADD || bo.Op == token.MUL) {
+			if ok1, w1 := sizeOK(bo.X, depth+1); !ok1 {
+				return false, w1
+			}
+			return sizeOK(bo.Y, depth+1)
+		}
+		if phi, ok := v.(*ssa.Phi); ok {
+			for _, e := range phi.Edges {
+				if ok1, w1 := sizeOK(e, depth+1); !ok1 {
+					return false, w1
+				}
+			}
+			return true, ""
+		}
+		lower := core.GuardedBy(ms.Block(), func(cond ssa.Value) (bool, bool) {
+			x, onT, onF, ok := core.SignTest(cond)
+			if !ok || core.Unconv(x) != v {
+				return false, false
+			}
+			if onT == "nonneg" {
+				return true, true
+			}
+			if onF == "nonneg" {
+				return false, true
+			}
+			return false, false
+		})
+		upper := core.GuardedBy(ms.Block(), func(cond ssa.Value) (bool, bool) {
+			bo, ok := cond.(*ssa.BinOp)
+			if !ok || core.Unconv(bo.X) != v {
+				return false, false
+			}
+			if _, isK := core.ConstInt(bo.Y); !isK {
+				return false, false
+			}
+			switch bo.Op {
+			case token.LEQ, token.LSS:
+				return true, true
+			case token.GTR, token.GEQ:
+				return false, true
+			}
+			return false, false
+		})
+		if lower && upper {
+			return true, ""
+		}
+		if !lower {
+			return false, "size is not proven non-negative (a hostile declared size wraps to a negative int)"
+		}
+		return false, "size is not bounded by a constant"
+	}
+	for _, v := range []ssa.Value{ms.Len, ms.Cap} {
+		if v == nil {
+			continue
+		}
+		if ok, why := sizeOK(v, 0); !ok {
+			return false, why
+		}
+	}
+	return true, "every run-time size is a length of existing data, a constant, or range-checked on both sides"
 }
